@@ -102,6 +102,7 @@ const c16VouchPath = "github.com/attestantio/vouch/"
 func c16Site(stack string) string {
 	lines := strings.Split(stack, "\n")
 	start := 0
+	lib := false
 	for i, l := range lines {
 		if strings.HasPrefix(l, "panic(") {
 			start = i + 1
@@ -112,11 +113,19 @@ func c16Site(stack string) string {
 		if l == "" || l[0] == '\t' || l[0] == ' ' || strings.HasPrefix(l, "goroutine ") {
 			continue
 		}
+		if strings.HasPrefix(l, "verifharness/") && strings.Contains(l, "c16RelayClient).UnblindProposal") {
+			// the stand-in panics where the client library does: the site is vouch's frame that called the library
+			lib = true
+			continue
+		}
 		if strings.HasPrefix(l, "verifharness/") {
 			return "HARNESS." + c16Frame(l, "verifharness/")
 		}
 		if !strings.HasPrefix(l, c16VouchPath) || strings.HasPrefix(l, c16VouchPath+"verifmc/") {
 			continue
+		}
+		if lib {
+			return "client-library-called-from." + c16Frame(l, c16VouchPath)
 		}
 		return c16Frame(l, c16VouchPath)
 	}
@@ -987,6 +996,12 @@ func (r *c16RelayClient) UnblindProposal(_ context.Context, opts *builderapi.Unb
 		return nil, errors.New("failed to submit unblind proposal request: POST failed with status 500")
 	case "nildata":
 		return &builderapi.Response[*api.VersionedSignedProposal]{Data: nil, Metadata: map[string]any{}}, nil
+	case "nullpayload":
+		// the relay answers 200 with {"version":...,"data":null}: go-builder-client v0.5.1 decodes that to a nil
+		// payload (bundle) and dereferences it while checking the payload hash - the library panics in the goroutine
+		// of its caller, which is vouch's
+		var payload *bellatrix.ExecutionPayload
+		_ = payload.BlockHash
 	}
 	return &builderapi.Response[*api.VersionedSignedProposal]{Data: res, Metadata: map[string]any{}}, nil
 }
@@ -1398,7 +1413,7 @@ func c16Propose(st *c16State, e *c16ProposeEnv) {
 
 func c16ProposeUnits(tier string) []hx.Unit {
 	var units []hx.Unit
-	unblinds := []string{"full", "err400", "err", "nildata"}
+	unblinds := []string{"full", "err400", "err", "nildata", "nullpayload"}
 	for _, ver := range c16Versions {
 		for _, blinded := range []bool{false, true} {
 			for _, mode := range c16AuctionModes {
@@ -1455,7 +1470,7 @@ func c16ProposeUnits(tier string) []hx.Unit {
 						if blinded && (mode == "nowinner" || mode == "winner") {
 							if full {
 								r1.unblind = unblinds[mc.Choose(len(unblinds))]
-								r2.unblind = []string{"err", "full", "nildata"}[mc.Choose(3)]
+								r2.unblind = []string{"err", "full", "nildata", "nullpayload"}[mc.Choose(4)]
 								e.fromAll = mc.Choose(2) == 1
 							} else if mc.Choose(2) == 1 {
 								r1.unblind, r2.unblind, e.fromAll = "err400", "nildata", true
@@ -2061,8 +2076,60 @@ func c16RelayServiceUnits(_ string) []hx.Unit {
 	return units
 }
 
+// ---- family: answers the client library hands on incomplete ----------------------------------------------------
+
+// c16NoDataHeaders answers a header request the way go-eth2-client v0.21.11 does for a 200 body without a "data"
+// member: a response whose header is the zero value (no inner header), and no error.
+type c16NoDataHeaders struct{}
+
+func (c16NoDataHeaders) BeaconBlockHeader(_ context.Context, _ *api.BeaconBlockHeaderOpts) (*api.Response[*apiv1.BeaconBlockHeader], error) {
+	return &api.Response[*apiv1.BeaconBlockHeader]{Data: &apiv1.BeaconBlockHeader{}, Metadata: map[string]any{}}, nil
+}
+
+func c16IncompleteUnits(_ string) []hx.Unit {
+	var units []hx.Unit
+	// a block header answer without data, met by a cache lookup (as the strategies' goroutines make them)
+	{
+		st := &c16State{fam: "incomplete/header"}
+		units = append(units, c16Unit("C16/incomplete/header-answer-without-data", time.Minute, st, func() {
+			ctx, cancel := mcontext.WithCancel(context.Background())
+			defer cancel()
+			svc, err := standardcache.New(ctx, standardcache.WithLogLevel(c16LogLevel), standardcache.WithMonitor(&nullmetrics.Service{}),
+				standardcache.WithChainTime(newChainTime(c16GenesisOff, 12*time.Second, 32)), standardcache.WithScheduler(&nopScheduler{}), standardcache.WithEventsProvider(&eventsProvider{}),
+				standardcache.WithSignedBeaconBlockProvider(c18Blocks{}), standardcache.WithBeaconBlockHeadersProvider(c16NoDataHeaders{}))
+			must(err)
+			st.nontriv = true
+			st.input = `block header answer {"execution_optimistic":false,"finalized":false} (no data member), on a cache miss`
+			st.call(func() {
+				slot, err := svc.BlockRootToSlot(ctx, root(0x31))
+				st.outcome = fmt.Sprintf("slot=%d err=%v", slot, err != nil)
+			})
+		}))
+	}
+	// a sync committee duties answer whose list starts with null, met when the controller sets the period up
+	{
+		st := &c16State{fam: "incomplete/sync-duties"}
+		units = append(units, c16Unit("C16/incomplete/sync-duties-with-null-entry", 10*time.Minute, st, func() {
+			st.nontriv = true
+			st.input = `sync committee duties {"data":[null,{...}]}`
+			st.call(func() {
+				w := c15Build(c15WorldCfg{spec: c15Spec(4, 0, 16, 4, 16), startSlot: 10, positions: map[phase0.ValidatorIndex][]phase0.CommitteeIndex{7: {0}}, delay: 4 * time.Second, before: func(w *c15World) {
+					w.duties.member = map[uint64]bool{1: true, 2: true}
+					w.duties.armed = true
+					w.duties.nullFirst = true
+				}})
+				defer w.cancel()
+				mc.Sleep(int64(3 * c15SlotDur))
+				st.outcome = fmt.Sprintf("messaged-slots=%d", len(w.rec.calls))
+			})
+		}))
+	}
+	return units
+}
+
 func c16Units(tier string) []hx.Unit {
 	var units []hx.Unit
+	units = append(units, c16WithTraced(c16IncompleteUnits(tier))...)
 	units = append(units, c16WithTraced(c16RelayServiceUnits(tier))...)
 	units = append(units, c16ConfigUnits(tier)...)
 	units = append(units, c16WithTraced(c16BidUnits(tier))...)
@@ -2086,10 +2153,11 @@ func init() {
 			"graffiti = 16 file contents of the dynamic provider (plain, 32 bytes, longer, {{CLIENT}} templates, missing, error) x node client names of length 0,1,4,8,10,40 / error / no name, through proposer and best strategy; " +
 			"attester duties = all lists up to length 3 (thorough 4) over 13 elements (duplicates, out-of-epoch, slot 2^63 and 2^64-1, unknown validator, zero fields, null, {}); head and block events with zero / maximal fields and without data, the fetched block being any single replacement (to depth 5) of a signed block of each version, at service start and on the event, for the cache and the proposal strategy; " +
 			"bid requests after an auction = the real block relay service, relay answer to the auction {good, below minimum, error, no data, bad signature, zero value, wrong timestamp}, then the builder endpoint's bid request for the same and for another parent; the attester duties are also taken through the real committee subscriber and aggregator (committee lengths 0, 1, 15, 64, 128); " +
+			"incomplete answers the client library hands on = a block header answer without a data member on a cache miss, sync committee duties whose list starts with null; a relay's unblinding answer with a null payload (the stand-in panics where go-builder-client does); " +
 			"lighthouse/teku error JSON (26 texts incl. failures:[null], plus 40 texts whose failure index lies inside, on the edge of, outside or far outside the batch of 1-2 items) through the multinode submitter; top-level configuration documents that are no object (null, empty, [], scalars) or carry only a version; proposal, bid, event and graffiti families are run both with logging disabled and with trace logging (output discarded); " +
 			"oracle: no panic and the call returns; non-trivial = the input has at least one absent/null/zero/unparsable element; distinct = distinct (family, outcome) labels",
 		Assumptions: []string{
-			"beacon nodes and relays are reached through go-eth2-client v0.21.11 / go-builder-client v0.5.1 HTTP clients: a value is deliverable iff their JSON decoding and post-decode checks (mirrored in the harness) let it through; inputs on which the client library itself panics before returning are counted as not delivered",
+			"beacon nodes and relays are reached through go-eth2-client v0.21.11 / go-builder-client v0.5.1 HTTP clients: a value is deliverable iff their JSON decoding and post-decode checks (mirrored in the harness) let it through; inputs on which the client library itself panics before returning are counted as not delivered, except where vouch calls the library in a goroutine of its own making (the relay unblinding), where such a panic ends the process and is vouch's to contain",
 			"a relay's unblinding answer without data is kept as a regression input although the HTTP client cannot produce it",
 			"the duty context ends 14 s after it starts (Propose blocks on its context when no relay unblinds)",
 			"returned errors and fallbacks are never flagged",
